@@ -193,7 +193,7 @@ func Run(r *mc.Run) {
 	r.Assume = []string{"epochs in (2^31, 2^63) are not demanded either way (the statement does not fix the threshold)", "'+1:1.0' and '-0:1' are not in the rejected class (strtol accepts them)"}
 
 	// ---- A ----
-	epochs := []string{"", "0", "1", "00", "01", "7", "2147483647", "4294967296"}
+	epochs := []string{"", "0", "1", "00", "01", "7", "2147483647", "4294967296", "08", "09", "010", "0010", "017", "0000000000000000000012"}
 	epochs = append(epochs, gen.AuditIntStrings(0, 1<<62, 9)...) // alphabet audit: numbers a change introduced into the code
 	var ups []string
 	upAlpha := append(gen.Chars("01aZ.+~-:"), gen.AuditChars(gen.Versionish, 3)...)
@@ -270,6 +270,10 @@ func Run(r *mc.Run) {
 		}
 	}
 	add("non-numeric-epoch", "a:1", "1a:1", ":1", "1.0:1", "~:1", "1 :1", "0x1:1", "1e1:1")
+	// spellings of numbers that Go's base-detecting conversions accept but that are not decimal digit strings
+	add("non-numeric-epoch", "0x1f:1.0", "0X1:1", "0b1:1", "0B11:1", "0o7:1", "0O7:1", "1_0:1", "0_1:1", "1e0:1", "0x:1", "١:1")
+	// quoting is not part of the grammar (whatever the entry point)
+	add("outside-alphabet", "\"1.0\"", "\"1:2.0-3\"", "'1.0'", "\"1.0", "1.0\"")
 	add("negative-epoch", "-1:1", "-7:1.0-1", "-2147483648:1")
 	add("oversized-epoch", "9223372036854775808:1", "18446744073709551616:1", "999999999999999999999999:1", "99999999999999999999:1.0-1")
 	// a systematic family of oversized epochs (>= 2^63): leading digit x number of digits, repeated digits, and the
@@ -452,6 +456,25 @@ func checkReuse(scen string, in ReuseIn) *mc.Violation {
 	}
 	if v != want {
 		return mc.V(scen, "parts-exact-into-reused-value", in, fmt.Sprintf("%+v", want), fmt.Sprintf("%+v", v))
+	}
+	// the text handed to UnmarshalText belongs to the caller: overwriting the buffer afterwards (with the other text, then
+	// with filler) must not change what was parsed from it
+	if in.Via == "text" {
+		var w version.Version
+		buf := []byte(in.Second)
+		if p, msg := mc.Guard(func() { e2 = w.UnmarshalText(buf) }); p || e2 != nil {
+			return mc.V(scen, "parse-returns", in, "as before", fmt.Sprint(msg, e2))
+		}
+		for i := range buf {
+			if i < len(in.First) {
+				buf[i] = in.First[i]
+			} else {
+				buf[i] = '9'
+			}
+		}
+		if w != want || w.String() != want.String() {
+			return mc.V(scen, "parts-exact-into-reused-value", in, fmt.Sprintf("%+v", want), fmt.Sprintf("after the caller reused its text buffer: %+v", w))
+		}
 	}
 	return nil
 }
